@@ -77,6 +77,8 @@ pub fn execute(case: &W1Case) -> RunOutcome<W1Out> {
     let problem_text = serde_json::to_string(&case.problem).unwrap();
     let matrix_texts: Vec<String> = case.matrices.iter().map(|m| serde_json::to_string(m).unwrap()).collect();
     let config_text = serde_json::to_string(&case.config).unwrap();
+    let trace = std::env::var_os("VSIM_TRACE_INSERTIONS").is_some();
+    let model = PModel::parse(&case.problem, &case.matrices).ok();
     run_sim(&case.spec, || {
         let readers: Vec<BufReader<&[u8]>> = matrix_texts.iter().map(|m| BufReader::new(m.as_bytes())).collect();
         let problem = match (BufReader::new(problem_text.as_bytes()), readers).read_pragmatic() {
@@ -86,6 +88,32 @@ pub fn execute(case: &W1Case) -> RunOutcome<W1Out> {
                 return sys::monitor(|| W1Out::Rejected(msg.as_str().to_string()));
             }
         };
+        if trace {
+            // triage aid (H3): first applied insertion after which a hard rule is broken, with the operator stack
+            let model = sys::monitor(|| model.clone());
+            let count = std::rc::Rc::new(std::cell::Cell::new((0u64, false)));
+            vrp_core::verif::set_insertion_observer(Some(std::rc::Rc::new(move |ctx: &vrp_core::construction::heuristics::InsertionContext| {
+                sys::monitor(|| {
+                    let (n, done) = count.get();
+                    count.set((n + 1, done));
+                    if done {
+                        return;
+                    }
+                    if let (Some(m), Ok(doc)) = (model.as_ref(), crate::scen::w2::write_ctx(ctx)) {
+                        if let Ok(s) = serde_json::from_str::<Value>(&doc).map_err(|e| e.to_string()).and_then(|v| SSolution::parse(&v)) {
+                            let (issues, _) = check_all(m, &s);
+                            let hard: Vec<_> = issues.iter().filter(|i| i.prop == "C01").collect();
+                            if !hard.is_empty() {
+                                count.set((n + 1, true));
+                                let bt = format!("{}", std::backtrace::Backtrace::force_capture());
+                                let stack: Vec<&str> = bt.lines().filter(|l| l.contains("vrp_core::solver::search") || l.contains("probing") || l.contains("rosomaxa::hyper")).collect();
+                                crate::say!("FIRST-BAD-INSERTION #{} {}:{} {}\n{}", n + 1, hard[0].prop, hard[0].rule, hard[0].msg, stack.join("\n"));
+                            }
+                        }
+                    }
+                })
+            })));
+        }
         let config = match vrp_cli::extensions::solve::config::read_config(BufReader::new(config_text.as_bytes())) {
             Ok(c) => c,
             Err(e) => {
@@ -118,14 +146,14 @@ pub fn judge(case: &W1Case, out: &RunOutcome<W1Out>) -> W1Verdict {
     let mut tours = 0;
     let mut discarded = None;
     match &out.result {
-        Err(p) => issues.push(Issue { prop: "C07", rule: "panic", msg: format!("solver panicked: {} at {}", p.message, p.location) }),
+        Err(p) => issues.push(Issue { prop: "C07", rule: "panic", msg: format!("solver panicked: {} at {}", p.message, p.location), tag: "" }),
         Ok(W1Out::Rejected(e)) => discarded = Some(format!("rejected: {}", e.chars().take(300).collect::<String>())),
         Ok(W1Out::BadConfig(e)) => discarded = Some(format!("bad config: {}", e.chars().take(300).collect::<String>())),
         Ok(W1Out::SolveError(e)) => {
-            issues.push(Issue { prop: "C07", rule: "solve-error", msg: format!("solver returned an error: {}", e.chars().take(300).collect::<String>()) })
+            issues.push(Issue { prop: "C07", rule: "solve-error", msg: format!("solver returned an error: {}", e.chars().take(300).collect::<String>()), tag: "" })
         }
         Ok(W1Out::Solution(text)) => match serde_json::from_str::<Value>(text) {
-            Err(e) => issues.push(Issue { prop: "C02", rule: "bad-json", msg: format!("solution is not json: {e}") }),
+            Err(e) => issues.push(Issue { prop: "C02", rule: "bad-json", msg: format!("solution is not json: {e}"), tag: "" }),
             Ok(v) => {
                 match (PModel::parse(&case.problem, &case.matrices), SSolution::parse(&v)) {
                     (Ok(m), Ok(s)) => {
@@ -135,7 +163,7 @@ pub fn judge(case: &W1Case, out: &RunOutcome<W1Out>) -> W1Verdict {
                         probes = p;
                     }
                     (Err(e), _) => discarded = Some(format!("oracle cannot parse problem: {e}")),
-                    (_, Err(e)) => issues.push(Issue { prop: "C02", rule: "bad-solution-doc", msg: e }),
+                    (_, Err(e)) => issues.push(Issue { prop: "C02", rule: "bad-solution-doc", msg: e, tag: "" }),
                 }
                 solution = Some(v);
             }
@@ -173,6 +201,10 @@ impl W1Scenario {
         let out = execute(case);
         let v = judge(case, &out);
         let mut rec = CaseRecord { log_hash: out.log_hash, sim_ns: out.sim_ns, ..Default::default() };
+        if std::env::var_os("VSIM_DUMP").is_some() {
+            crate::say!("{}", serde_json::to_string(&json!({"case": case.to_json(), "solution": v.solution,
+                "issues": v.issues.iter().map(|i| format!("{}:{} {}", i.prop, i.rule, i.msg)).collect::<Vec<_>>() })).unwrap());
+        }
         if out.arena_live != 0 {
             rec.taint = true;
             rec.count("harness.arena_leak_runs", 1);
@@ -185,10 +217,27 @@ impl W1Scenario {
             sig.push("nonmetric");
         }
         if case.matrices.iter().any(|m| m.get("errorCodes").is_some()) {
-            sig.push("unreachable-flags");
+            sig.push(if crate::gen::problem::flags_are_closed(&case.matrices) { "unreachable-islands" } else { "unreachable-random" });
+        }
+        if serde_json::to_string(&case.problem["fleet"]).map(|t| t.contains("\"reloads\"")).unwrap_or(false) {
+            sig.push("reloads");
         }
         let sig = sig.join("|");
-        rec.issues = v.issues.iter().map(|i| IssueRec { prop: i.prop.to_string(), rule: i.rule.to_string(), sig: sig.clone(), msg: i.msg.clone() }).collect();
+        rec.issues = v
+            .issues
+            .iter()
+            .map(|i| IssueRec {
+                prop: i.prop.to_string(),
+                rule: i.rule.to_string(),
+                sig: if i.tag.is_empty() { sig.clone() } else if sig.is_empty() { i.tag.to_string() } else { format!("{sig}|{}", i.tag) },
+                msg: i.msg.clone(),
+            })
+            .collect();
+        if rec.issues.iter().any(|i| i.rule == "unreachable-leg") {
+            for i in rec.issues.iter_mut() {
+                i.sig = if i.sig.is_empty() { "flagged-leg-in-solution".to_string() } else { format!("{}|flagged-leg-in-solution", i.sig) };
+            }
+        }
         // counters
         if let Some(f) = features {
             for n in f.names() {
